@@ -14,7 +14,8 @@ META = {
     'functions': ['enspara.msm.transition_matrices.assigns_to_counts', 'enspara.msm.transition_matrices._transitions_helper',
                   'enspara.ra.ra.RaggedArray (construction, row iteration, shape)'],
     'bounds': {'quick': '<=3 trajectories, each length 1..4 (all length vectors), lag 1..5, <=3 states, sliding window on/off, '
-                        'ragged / padded-rectangular input, explicit or inferred state count; state ids symbolic',
+                        'ragged / padded-rectangular input, explicit or inferred state count; state ids symbolic; 3 trajectories of 70..120 frames with 2 symbolic '
+                        'frames each (pair counts beyond 8 bits); int8 state ids with 12 states',
                'thorough': '<=3 trajectories of length 1..7 (lag 1..8) and 4 trajectories of length 1..3; 4 states up to 7 frames, 3 up to 10, 2 beyond'},
     'stubs': ['scipy.sparse.coo_matrix((data,(i,j)),shape) = SymCOO: duplicates summed, out-of-range indices rejected'],
     'assumptions': ['state ids in [0, n_states) (interior -1 entries are outside the property)',
